@@ -4,11 +4,16 @@ import (
 	"strconv"
 	"strings"
 	"unicode"
+
+	"verif/harness/pratt"
 )
 
 // BinOps is the operator table of the value language in ascending priority (every
 // operator has its own level, as declared in value.New()).
 var BinOps = []string{"|", "&", "=", "!=", "~", "<", ">", "<=", ">=", "+", "-", "<<", ">>", "*", "%", "/", "^"}
+
+// ValueTable is the operator table of the value language for the reference parser.
+var ValueTable = pratt.Table{Bin: BinOps, Prefix: []string{"-", "!"}, Keywords: true}
 
 var Keywords = map[string]bool{"let": true, "func": true, "if": true, "then": true, "else": true, "switch": true, "case": true,
 	"default": true, "const": true, "try": true, "catch": true}
@@ -30,12 +35,72 @@ const (
 	ctxOperand            // operand of an operator, receiver of a postfix form
 )
 
-// Render produces program text. Parentheses are minimal with respect to the grammar
-// (plus the redundant ones requested by Expr.P).
-func Render(e *Expr) string {
+// emitter collects the tokens of the rendered program.
+type emitter struct {
+	toks []pratt.Tok
+}
+
+func (e *emitter) kw(s string)  { e.toks = append(e.toks, pratt.Tok{Kind: "kw", Text: s}) }
+func (e *emitter) op(s string)  { e.toks = append(e.toks, pratt.Tok{Kind: "op", Text: s}) }
+func (e *emitter) p(s string)   { e.toks = append(e.toks, pratt.Tok{Kind: s}) }
+func (e *emitter) num(s string) { e.toks = append(e.toks, pratt.Tok{Kind: "num", Text: s}) }
+func (e *emitter) str(s string) { e.toks = append(e.toks, pratt.Tok{Kind: "str", Text: s}) }
+func (e *emitter) id(s string) {
+	e.toks = append(e.toks, pratt.Tok{Kind: "id", Text: s, Quoted: !IsPlainIdent(s)})
+}
+
+// Tokens renders the program as a token list. Parentheses are minimal with respect to
+// the grammar (plus the redundant ones requested by Expr.P).
+func Tokens(e *Expr) []pratt.Tok {
+	em := &emitter{}
+	render(em, e, ctxLet)
+	return em.toks
+}
+
+// JoinPretty joins tokens with blanks where a lexer needs them, around binary
+// operators and keywords and behind commas, colons and semicolons.
+func JoinPretty(toks []pratt.Tok) string {
 	var b strings.Builder
-	render(&b, e, ctxLet)
+	prefix := map[int]bool{}
+	// an operator is a prefix operator if it stands at the start or behind an operator,
+	// a keyword or an opening/separating token
+	for i, t := range toks {
+		if t.Kind == "op" && t.Text != "->" {
+			if i == 0 {
+				prefix[i] = true
+			} else {
+				switch toks[i-1].Kind {
+				case "op", "kw", "(", "[", "{", ",", ":", ";":
+					prefix[i] = true
+				}
+			}
+		}
+	}
+	for i, t := range toks {
+		if i > 0 {
+			a := toks[i-1]
+			sp := ValueTable.NeedBlank(a, t)
+			if (t.Kind == "op" && !prefix[i]) || (a.Kind == "op" && !prefix[i-1]) {
+				sp = true
+			}
+			if a.Kind == "," || a.Kind == ";" || a.Kind == ":" || t.Kind == "kw" || a.Kind == "kw" {
+				sp = true
+			}
+			if t.Kind == "," || t.Kind == ";" || t.Kind == ")" || t.Kind == "]" || t.Kind == ":" {
+				sp = ValueTable.NeedBlank(a, t)
+			}
+			if sp {
+				b.WriteByte(' ')
+			}
+		}
+		b.WriteString(pratt.TokText(t))
+	}
 	return b.String()
+}
+
+// Render produces program text.
+func Render(e *Expr) string {
+	return JoinPretty(Tokens(e))
 }
 
 func isPostfixBase(e *Expr) bool {
@@ -47,9 +112,7 @@ func isPostfixBase(e *Expr) bool {
 }
 
 // endsOpen: the text of e (rendered without own parentheses) ends with the operand of
-// a unary minus, which would swallow a following operator of priority > prio("-"); or
-// ends with a construct that extends to the right without bound (lambda body, else
-// branch, catch, default), reported as 1000.
+// a unary minus, which would swallow a following operator of priority > prio("-").
 func endsOpen(e *Expr) int {
 	if e.P {
 		return -1
@@ -65,10 +128,6 @@ func endsOpen(e *Expr) int {
 			return -1
 		}
 		return endsOpen(e.X[1])
-	case KInt:
-		if e.I < 0 {
-			return -1 // rendered in parentheses
-		}
 	}
 	return -1
 }
@@ -95,48 +154,29 @@ func operandParens(c *Expr, p int, right bool) bool {
 	return false
 }
 
-func wrap(b *strings.Builder, e *Expr, parens bool, c ctx) {
+func wrap(b *emitter, e *Expr, parens bool, c ctx) {
 	if parens {
-		b.WriteString("(")
+		b.p("(")
 		// inside parentheses parseExpression is used
 		renderNoP(b, e, ctxExpr)
-		b.WriteString(")")
+		b.p(")")
 	} else {
 		renderNoP(b, e, c)
 	}
 }
 
-func render(b *strings.Builder, e *Expr, c ctx) {
+func render(b *emitter, e *Expr, c ctx) {
 	if e.P && e.K != KLet && e.K != KFunc {
-		b.WriteString("(")
+		b.p("(")
 		renderNoP(b, e, ctxExpr)
-		b.WriteString(")")
+		b.p(")")
 		return
 	}
 	renderNoP(b, e, c)
 }
 
 func QuoteStr(s string) string {
-	var b strings.Builder
-	b.WriteByte('"')
-	for _, r := range s {
-		switch r {
-		case '\\':
-			b.WriteString(`\\`)
-		case '"':
-			b.WriteString(`\"`)
-		case '\n':
-			b.WriteString(`\n`)
-		case '\r':
-			b.WriteString(`\r`)
-		case '\t':
-			b.WriteString(`\t`)
-		default:
-			b.WriteRune(r)
-		}
-	}
-	b.WriteByte('"')
-	return b.String()
+	return pratt.TokText(pratt.Tok{Kind: "str", Text: s})
 }
 
 func IsPlainIdent(s string) bool {
@@ -166,45 +206,51 @@ func FloatLit(f float64) string {
 	return s
 }
 
-func renderArgs(b *strings.Builder, args []*Expr) {
+func renderArgs(b *emitter, args []*Expr) {
 	for i, a := range args {
 		if i > 0 {
-			b.WriteString(", ")
+			b.p(",")
 		}
 		render(b, a, ctxLet)
 	}
 }
 
-func renderRecv(b *strings.Builder, r *Expr) {
+func renderRecv(b *emitter, r *Expr) {
 	if r.P || !isPostfixBase(r) {
-		b.WriteString("(")
+		b.p("(")
 		renderNoP(b, r, ctxExpr)
-		b.WriteString(")")
+		b.p(")")
 		return
 	}
 	renderNoP(b, r, ctxOperand)
 }
 
-func renderNoP(b *strings.Builder, e *Expr, c ctx) {
+func renderNoP(b *emitter, e *Expr, c ctx) {
 	switch e.K {
 	case KInt:
 		if e.I < 0 {
-			b.WriteString("(-" + strconv.Itoa(-e.I) + ")")
+			b.p("(")
+			b.op("-")
+			b.num(strconv.Itoa(-e.I))
+			b.p(")")
 		} else {
-			b.WriteString(strconv.Itoa(e.I))
+			b.num(strconv.Itoa(e.I))
 		}
 	case KFloat:
 		if e.F < 0 {
-			b.WriteString("(-" + FloatLit(-e.F) + ")")
+			b.p("(")
+			b.op("-")
+			b.num(FloatLit(-e.F))
+			b.p(")")
 		} else {
-			b.WriteString(FloatLit(e.F))
+			b.num(FloatLit(e.F))
 		}
 	case KStr:
-		b.WriteString(QuoteStr(e.S))
+		b.str(e.S)
 	case KVar:
-		b.WriteString(RenderKey(e.S))
+		b.id(e.S)
 	case KUn:
-		b.WriteString(e.S)
+		b.op(e.S)
 		ch := e.X[0]
 		var parens bool
 		if e.S == "-" {
@@ -217,7 +263,7 @@ func renderNoP(b *strings.Builder, e *Expr, c ctx) {
 		} else {
 			parens = !(isPostfixBase(ch) || (ch.K == KInt && ch.I >= 0) || (ch.K == KFloat && ch.F >= 0))
 			if (ch.K == KInt && ch.I < 0) || (ch.K == KFloat && ch.F < 0) {
-				parens = false // literal renders its own parentheses
+				parens = false // the literal renders its own parentheses
 			}
 		}
 		if ch.P {
@@ -232,118 +278,127 @@ func renderNoP(b *strings.Builder, e *Expr, c ctx) {
 			lp = true
 		}
 		wrap(b, l, lp, ctxOperand)
-		b.WriteString(" " + e.S + " ")
+		b.op(e.S)
 		wrap(b, r, operandParens(r, p, true), ctxOperand)
 	case KLet:
 		if c != ctxLet {
 			panic("lang: let in a position where the grammar does not allow it")
 		}
-		b.WriteString("let " + RenderKey(e.S) + " = ")
+		b.kw("let")
+		b.id(e.S)
+		b.op("=")
 		render(b, e.X[0], ctxExpr)
-		b.WriteString("; ")
+		b.p(";")
 		render(b, e.X[1], ctxLet)
 	case KFunc:
 		if c != ctxLet {
 			panic("lang: func in a position where the grammar does not allow it")
 		}
-		b.WriteString("func " + RenderKey(e.S) + "(")
+		b.kw("func")
+		b.id(e.S)
+		b.p("(")
 		for i, n := range e.Names {
 			if i > 0 {
-				b.WriteString(", ")
+				b.p(",")
 			}
-			b.WriteString(RenderKey(n))
+			b.id(n)
 		}
-		b.WriteString(") ")
+		b.p(")")
 		render(b, e.X[0], ctxLet)
-		b.WriteString("; ")
+		b.p(";")
 		render(b, e.X[1], ctxLet)
 	case KLam:
 		if c == ctxOperand {
 			panic("lang: bare lambda as operand")
 		}
 		if len(e.Names) == 1 {
-			b.WriteString(RenderKey(e.Names[0]))
+			b.id(e.Names[0])
 		} else {
-			b.WriteString("(")
+			b.p("(")
 			for i, n := range e.Names {
 				if i > 0 {
-					b.WriteString(", ")
+					b.p(",")
 				}
-				b.WriteString(RenderKey(n))
+				b.id(n)
 			}
-			b.WriteString(")")
+			b.p(")")
 		}
-		b.WriteString(" -> ")
+		b.op("->")
 		render(b, e.X[0], ctxLet)
 	case KCall:
 		renderRecv(b, e.X[0])
-		b.WriteString("(")
+		b.p("(")
 		renderArgs(b, e.X[1:])
-		b.WriteString(")")
+		b.p(")")
 	case KSCall:
-		b.WriteString(e.S + "(")
+		b.id(e.S)
+		b.p("(")
 		renderArgs(b, e.X)
-		b.WriteString(")")
+		b.p(")")
 	case KMCall:
 		renderRecv(b, e.X[0])
-		b.WriteString("." + RenderKey(e.S) + "(")
+		b.p(".")
+		b.id(e.S)
+		b.p("(")
 		renderArgs(b, e.X[1:])
-		b.WriteString(")")
+		b.p(")")
 	case KIf:
 		if c == ctxOperand {
 			panic("lang: bare if as operand")
 		}
-		b.WriteString("if ")
+		b.kw("if")
 		render(b, e.X[0], ctxExpr)
-		b.WriteString(" then ")
+		b.kw("then")
 		render(b, e.X[1], ctxLet)
-		b.WriteString(" else ")
+		b.kw("else")
 		render(b, e.X[2], ctxLet)
 	case KSwitch:
 		if c == ctxOperand {
 			panic("lang: bare switch as operand")
 		}
-		b.WriteString("switch ")
+		b.kw("switch")
 		render(b, e.X[0], ctxExpr)
 		n := len(e.X)
-		for i := 1; i+1 < n-0 && i+1 <= n-1; i += 2 {
-			b.WriteString(" case ")
+		for i := 1; i+1 <= n-1; i += 2 {
+			b.kw("case")
 			render(b, e.X[i], ctxExpr)
-			b.WriteString(" : ")
+			b.p(":")
 			render(b, e.X[i+1], ctxLet)
 		}
-		b.WriteString(" default ")
+		b.kw("default")
 		render(b, e.X[n-1], ctxLet)
 	case KTry:
 		if c == ctxOperand {
 			panic("lang: bare try as operand")
 		}
-		b.WriteString("try ")
+		b.kw("try")
 		render(b, e.X[0], ctxLet)
-		b.WriteString(" catch ")
+		b.kw("catch")
 		render(b, e.X[1], ctxLet)
 	case KList:
-		b.WriteString("[")
+		b.p("[")
 		renderArgs(b, e.X)
-		b.WriteString("]")
+		b.p("]")
 	case KMap:
-		b.WriteString("{")
+		b.p("{")
 		for i, k := range e.Names {
 			if i > 0 {
-				b.WriteString(", ")
+				b.p(",")
 			}
-			b.WriteString(RenderKey(k) + ": ")
+			b.id(k)
+			b.p(":")
 			render(b, e.X[i], ctxLet)
 		}
-		b.WriteString("}")
+		b.p("}")
 	case KIndex:
 		renderRecv(b, e.X[0])
-		b.WriteString("[")
+		b.p("[")
 		render(b, e.X[1], ctxExpr)
-		b.WriteString("]")
+		b.p("]")
 	case KMember:
 		renderRecv(b, e.X[0])
-		b.WriteString("." + RenderKey(e.S))
+		b.p(".")
+		b.id(e.S)
 	default:
 		panic("lang: unknown node kind " + e.K)
 	}
